@@ -9,6 +9,8 @@ from harness import gen, model, ref
 from harness.props.c01 import load_outcome
 from harness.props.c02 import strip_shapes
 from harness.props.c05 import plain_doc, positions, replace_at
+from harness.props import v1streams
+from harness.model import T
 
 
 def attribution(e):
@@ -35,6 +37,10 @@ def model_attr(r):
 
 
 def run(ctx: C.Ctx):
+    v1streams.run_streams(ctx, run_default, run_v1)
+
+
+def run_default(ctx: C.Ctx):
     from dataclass_wizard import fromdict
     from dataclass_wizard.errors import JSONWizardError, ParseError
     rng = ctx.rng
@@ -197,3 +203,333 @@ def _at(doc, path):
     for s_ in path:
         cur = cur[s_]
     return cur
+
+
+# --------------------------------------------------------------------------- v1 engine: AliasPath and the remaining class features
+
+PATHS = [('p.q', ['p', 'q']), ('p.q.r', ['p', 'q', 'r']), ('items[0]', ['items', 0]), ('a.b[1]', ['a', 'b', 1]), ('solo', ['solo'])]
+PATH_MUTS = ['drop-top', 'drop-last', 'other-key', 'list-instead', 'scalar-instead', 'none-instead', 'bad-value', 'short-list']
+
+
+def _set_path(doc, steps, value):
+    """smallest JSON structure holding `value` at `steps`, merged into doc"""
+    cur = doc
+    for n_, st_ in enumerate(steps):
+        last = n_ == len(steps) - 1
+        nxt = value if last else ({} if isinstance(steps[n_ + 1], str) else [])
+        if isinstance(st_, int):
+            while len(cur) <= st_:
+                cur.append(0)
+            if last or not isinstance(cur[st_], (dict, list)):
+                cur[st_] = nxt
+            cur = cur[st_]
+        else:
+            if last or st_ not in cur:
+                cur[st_] = nxt
+            cur = cur[st_]
+
+
+def gen_alias_chain(rng, nm):
+    """source of a chain Root(JSONWizard, v1) → … → Leaf (1..3 classes); every class has one AliasPath field, a plain field and,
+    except the last, a child field (direct / list / Optional / dict value)"""
+    depth = rng.randint(1, 3)
+    levels = []
+    same_names = rng.random() < 0.2
+    for lvl in range(depth):
+        text, steps = rng.choice(PATHS)
+        levels.append({'cls': nm('A'), 'fld': 'px' if same_names else f'px{lvl}', 'path': text, 'steps': steps,
+                       'dflt': rng.random() < 0.3, 'link': rng.choice(['direct', 'direct', 'list', 'optional', 'dictval']),
+                       'wizard': rng.random() < 0.4, 'two_paths': rng.random() < 0.2})
+    lines = ['from dataclass_wizard.v1 import AliasPath', '']
+    for lvl in reversed(range(depth)):
+        L = levels[lvl]
+        root = lvl == 0
+        lines += ['@dataclass', f'class {L["cls"]}' + ('(JSONWizard)' if (root or L['wizard']) else '') + ':']
+        if root:
+            lines += ['    class _(JSONWizard.Meta):', '        v1 = True']
+        if lvl < depth - 1:
+            child = levels[lvl + 1]['cls']
+            ann = {'direct': child, 'list': f'list[{child}]', 'optional': f'Optional[{child}]', 'dictval': f'dict[str, {child}]'}[L['link']]
+            lines.append(f'    child{lvl}: {ann}')
+        paths = repr(L['path']) + (", 'alt.way'" if L['two_paths'] else '')
+        lines.append(f'    {L["fld"]}: int = AliasPath({paths}' + (', default=-5)' if L['dflt'] else ')'))
+        lines.append(f"    plain{lvl}: str = 'd'")
+        lines.append('')
+    return levels, '\n'.join(lines)
+
+
+def alias_doc(levels, lvl=0):
+    L = levels[lvl]
+    d = {}
+    if lvl < len(levels) - 1:
+        sub = alias_doc(levels, lvl + 1)
+        d[f'child{lvl}'] = {'direct': sub, 'list': [sub], 'optional': sub, 'dictval': {'k': sub}}[L['link']]
+    _set_path(d, L['steps'], 7 + lvl)
+    d[f'plain{lvl}'] = 's'
+    return d
+
+
+def level_doc(doc, levels, t):
+    cur = doc
+    for lvl in range(t):
+        cur = cur[f'child{lvl}']
+        link = levels[lvl]['link']
+        cur = cur[0] if link == 'list' else cur['k'] if link == 'dictval' else cur
+    return cur
+
+
+def mutate_path(rng, d, L, mut):
+    """returns the expectation: 'error' (must raise, attributed to the field), 'default' (loads, field holds its default) or None (skip)"""
+    steps = L['steps']
+    top = steps[0]
+    missing = 'default' if (L['dflt'] and not L['two_paths']) else 'error' if not L['dflt'] else None
+    if mut == 'drop-top':
+        d.pop(top, None)
+        return missing
+    if mut == 'drop-last':
+        if len(steps) < 2:
+            return None
+        cur = d
+        for st_ in steps[:-1]:
+            cur = cur[st_]
+        if isinstance(steps[-1], int):
+            del cur[steps[-1]:]
+        else:
+            cur.pop(steps[-1], None)
+        return missing
+    if mut == 'other-key':
+        d[top] = {'zz': 1}
+        if len(steps) < 2:
+            return None
+        return missing if isinstance(steps[1], str) else None
+    if mut == 'list-instead':
+        if len(steps) < 2 or isinstance(steps[1], int):
+            return None
+        d[top] = [1]
+        return 'error' if not L['two_paths'] else None
+    if mut == 'scalar-instead':
+        if len(steps) < 2:
+            return None
+        d[top] = 5
+        return 'error' if not L['two_paths'] else None
+    if mut == 'none-instead':
+        if len(steps) < 2:
+            return None
+        d[top] = None
+        return 'error' if not L['two_paths'] else None
+    if mut == 'bad-value':
+        _set_path(d, steps, rng.choice(['abc', [1], {'a': 1}]))
+        return 'error'
+    if mut == 'short-list':
+        if not isinstance(steps[-1], int):
+            return None
+        cur = d
+        for st_ in steps[:-1]:
+            cur = cur[st_]
+        del cur[:]
+        return missing
+    return None
+
+
+def run_v1(ctx: C.Ctx):
+    run_v1_alias(ctx)
+    run_v1_features(ctx)
+    ctx.rule = ctx.rule_alias + ' ALSO ' + ctx.rule
+
+
+def run_v1_alias(ctx: C.Ctx):
+    from dataclass_wizard import fromdict
+    from dataclass_wizard.errors import JSONWizardError, ParseError
+    rng = v1streams.sub_rng(ctx, 'v1-alias')
+    ctx.rule_alias = ('chains of 1..3 v1 dataclasses (direct / list / Optional / dict-value links) in which every class maps one int field with '
+                      'AliasPath (dict steps, list indices, one or two alternative paths, with / without default): in the class at a random depth the '
+                      'path is cut at the top, cut at the end, replaced by another key / a list / a scalar / None, its list emptied, or the value made '
+                      'unconvertible; a required field must then fail with a JSONWizardError attributed to exactly that (class, field) whose str() '
+                      'returns, a defaulted field whose path is merely absent must hold its default (oracle only — AliasPath is outside the Lean model).')
+    n = ctx.quick(350, 4000)
+    for j in range(n):
+        i = v1streams.OFFSET + j
+        if ctx.done(i):
+            break
+        nm = v1streams.Namer(j)
+        levels, src_txt = gen_alias_chain(rng, nm)
+        t = rng.randrange(len(levels))
+        mut = rng.choice(PATH_MUTS)
+        doc = alias_doc(levels)
+        exp = mutate_path(rng, level_doc(doc, levels, t), levels[t], mut)
+        dummy = {'k': 'cls', 'info': {'name': nm('Z'), 'fields': [{'name': 'a'}], 'wizard': False, 'meta': None}, 'ftys': [['a', T('int')]]}
+        try:
+            built = model.Built(dummy, extra_src=src_txt)
+        except Exception as e:
+            ctx.count('build_error')
+            ctx.notes.setdefault('build_errors', []).append(repr(e)[:300])
+            continue
+        try:
+            if not ctx.begin_case(i):
+                continue
+            doc = json.loads(json.dumps(doc))
+            case = {'levels': levels, 'target': t, 'mut': mut, 'doc': repr(doc)[:500], 'engine': 'v1', 'expect': exp}
+            Root = built.get(levels[0]['cls'])
+            src = dict(src=src_txt)
+            good = load_outcome(lambda: fromdict(Root, json.loads(json.dumps(alias_doc(levels)))))
+            out = load_outcome(lambda: fromdict(Root, copy.deepcopy(doc)))
+            ctx.seen('err:v1:alias', case, nontrivial=(out[0] == 'err'))
+            if good[0] == 'err':
+                ctx.fail('err:v1:alias-good', case, f'the complete document does not load: {type(good[1]).__name__}: {str(good[1])[:300]}', detail=src)
+                continue
+            L = levels[t]
+            if out[0] == 'err':
+                e = out[1]
+                ctx.count('raised:v1:alias:' + type(e).__name__)
+                if not isinstance(e, JSONWizardError):
+                    ctx.fail('err:v1:not-library-error', case, f'v1 load raised a bare {type(e).__name__}: {str(e)[:200]}', detail=src)
+                else:
+                    try:
+                        s_ = str(e)
+                        assert isinstance(s_, str)
+                    except BaseException as ee:       # StopIteration & co. included
+                        ctx.fail('err:v1:render', case, f'str({type(e).__name__}) for ({e.class_name}, {getattr(e, "field_name", None)}) raised '
+                                 f'{type(ee).__name__}: {ee}', detail=src)
+                    if exp == 'error' and isinstance(e, ParseError) and (e.class_name, e.field_name) != (L['cls'], L['fld']):
+                        ctx.fail('err:v1:attribution', case, f'{mut} in class {L["cls"]} (depth {t}): error names ({e.class_name!r}, {e.field_name!r}), '
+                                 f'expected ({L["cls"]!r}, {L["fld"]!r})', detail=src)
+                if exp == 'default':
+                    ctx.fail('err:v1:alias-default', case, f'{mut}: the path of defaulted field {L["fld"]} is absent, yet the load raised {type(e).__name__}: {str(e)[:200]}', detail=src)
+            else:
+                if exp == 'error':
+                    ctx.fail('err:v1:alias-accepted', case, f'{mut} on the path of required field {L["fld"]} of {L["cls"]} was accepted: {out[1]!r}'[:600], detail=src)
+                elif exp == 'default':
+                    obj = out[1]
+                    for lvl in range(t):
+                        obj = getattr(obj, f'child{lvl}')
+                        link = levels[lvl]['link']
+                        obj = obj[0] if link == 'list' else obj['k'] if link == 'dictval' else obj
+                    if getattr(obj, L['fld']) != -5:
+                        ctx.fail('err:v1:alias-default', case, f'{mut}: defaulted field {L["fld"]} holds {getattr(obj, L["fld"])!r}, expected its default -5', detail=src)
+        finally:
+            built.close()
+
+
+def _all_classes(ty, out=None):
+    out = [] if out is None else out
+    if ty['k'] == 'cls':
+        out.append(ty)
+        for _, ft in ty['ftys']:
+            _all_classes(ft, out)
+    else:
+        for m in ty.get('a', []):
+            _all_classes(m, out)
+    return out
+
+
+def run_v1_features(ctx: C.Ctx):
+    from dataclass_wizard import fromdict
+    from dataclass_wizard.errors import JSONWizardError, ParseError
+    from harness.props.c09 import gen_c09_cls
+    rng = v1streams.sub_rng(ctx, 'v1-features')
+    gen.SUBS = False
+    ctx.rule = ('v1 class models with init=False fields, nested dataclasses in list / dict / Optional / tuple, nested classes with their own Meta '
+                '(v1_on_unknown_key RAISE / IGNORE / WARN) under a root with or without RAISE, CatchAll fields (default None) on some classes: one '
+                'position replaced by junk, a required key deleted or an unknown key added: every error derives from JSONWizardError, str(e) returns, '
+                'and (type, class, field / missing / unknown) equals the Lean model\'s attribution. Non-trivial = distinct (class model, document) that raises.')
+    n = ctx.quick(500, 6000)
+    base = v1streams.OFFSET + 1_000_000
+    reqs, pend = [], []
+    for j in range(n):
+        i = base + j
+        if ctx.done(i):
+            break
+        ty = gen_c09_cls(rng, rng.choice([1, 1, 2, 2]), fresh=v1streams.Namer(j), p_noinit=0.5)
+        classes = _all_classes(ty)
+        for c in classes:
+            for f in c['info']['fields']:
+                f.pop('kw_only', None)
+        meta = {'v1': True}
+        if rng.random() < 0.4:
+            meta['v1_on_unknown_key'] = 'RAISE'
+        ty['info']['meta'] = meta
+        for c in classes[1:]:
+            r = rng.random()
+            if r < 0.35:
+                c['info']['meta'] = {'v1': True, 'v1_on_unknown_key': rng.choice(['RAISE', 'RAISE', 'IGNORE', 'WARN'])}
+            if rng.random() < 0.2 and not any(f.get('catch_all') for f in c['info']['fields']):
+                c['info']['fields'].append({'name': 'rest_items', 'catch_all': True, 'dflt': ['lit', None], 'factory': False})
+                c['ftys'].append(['rest_items', T('any')])
+        try:
+            built = model.Built(ty)
+        except Exception as e:
+            ctx.count('build_error')
+            ctx.notes.setdefault('build_errors', []).append(repr(e)[:300])
+            continue
+        try:
+            x = gen.gen_instance(rng, ty, built, use_defaults_prob=0.1)
+            doc = json.loads(json.dumps(plain_doc(x, ty, built)))
+            _strip_key(doc, 'rest_items')
+            pos = list(positions(doc))
+            r = rng.random()
+            bad = copy.deepcopy(doc)
+            if r < 0.55:
+                bad = replace_at(doc, rng.choice(pos), copy.deepcopy(gen.junk(rng)))
+            elif r < 0.75:
+                dpos = [p for p in pos if p and isinstance(p[-1], str)]
+                if dpos:
+                    p_ = rng.choice(dpos)
+                    cur = _at(bad, p_[:-1])
+                    if isinstance(cur, dict):
+                        cur.pop(p_[-1], None)
+            else:
+                dpos = [p for p in pos if isinstance(_at(bad, p), dict)]
+                tgt = _at(bad, rng.choice(dpos)) if dpos else bad
+                if isinstance(tgt, dict):
+                    tgt[rng.choice(['zzz_unknown', 'Extra-Key', '', 'q'])] = 1
+            if not ctx.begin_case(i):
+                continue
+            case = {'ty': ty, 'doc': repr(bad)[:600], 'engine': 'v1'}
+            out = load_outcome(lambda: fromdict(built.root, copy.deepcopy(bad)))
+            ctx.seen('err:v1:features', case, nontrivial=(out[0] == 'err'))
+            src = dict(src=built.source)
+            if out[0] == 'err':
+                e = out[1]
+                ctx.count('raised:v1:features:' + type(e).__name__)
+                if not isinstance(e, JSONWizardError):
+                    ctx.fail('err:v1:not-library-error', case, f'v1 load raised a bare {type(e).__name__}: {str(e)[:200]}', detail=src)
+                else:
+                    try:
+                        assert isinstance(str(e), str)
+                    except BaseException as ee:
+                        ctx.fail('err:v1:render', case, f'str({type(e).__name__}) raised {type(ee).__name__}: {ee}', detail=src)
+            st = model.StdTables()
+            st.add_json(bad)
+            try:
+                reqs.append({'op': 'loadv1', 'ty': model.enc_ty(ty), 'doc': model.enc_j(bad), 'std': st.build()})
+                pend.append((case, out))
+            except TypeError:
+                ctx.count('not_encodable')
+        finally:
+            built.close()
+    if ctx.model_available:
+        outs = ctx.driver.run(reqs)
+        for (case, out), o_ in zip(pend, outs):
+            if 'err' in o_ and 'r' not in o_:
+                ctx.agree('attr:v1:features', case, 'impl', {'driver_error': o_['err']})
+                continue
+            r = o_['r']
+            if model.has_miss(r):
+                ctx.count('std_miss')
+                continue
+            if 'err' in r and r['err'][0] == 'unsupported':
+                ctx.count('model_unsupported')
+                continue
+            impl = {'ok': True} if out[0] == 'ok' else {'err': attribution(out[1])}
+            m = {'ok': True} if 'ok' in r else {'err': model_attr(r['err'])}
+            ctx.agree('attr:v1:features', case, impl, m)
+
+
+def _strip_key(doc, key):
+    if isinstance(doc, dict):
+        doc.pop(key, None)
+        for v in doc.values():
+            _strip_key(v, key)
+    elif isinstance(doc, list):
+        for v in doc:
+            _strip_key(v, key)
